@@ -27,16 +27,19 @@ static std::string gzip(const std::string& in) {
 }
 
 // LP as seen through the accessors of the SUT (real: exact images of the doubles; rational: exact)
+static bool g_nonfinite = false;
+static Q qd(double d) { if (!std::isfinite(d)) { g_nonfinite = true; return Q(0); } return model::q_from_double(d); }
 static LP lp_from_sut(sut::Sut& s, bool rational) {
+  g_nonfinite = false;
   LP lp; lp.sense = s.getInt(P::i("objsense"));
   double inf = s.getReal(P::r("infty"));
-  lp.offset = model::q_from_double(s.getReal(P::r("obj_offset")));
+  lp.offset = qd(s.getReal(P::r("obj_offset")));
   if (!rational) {
     int n = s.numCols(), m = s.numRows();
     lp.obj.resize(n); lp.lo.resize(n); lp.up.resize(n); lp.lhs.resize(m); lp.rhs.resize(m); lp.A.assign(m, std::vector<Q>(n, Q(0)));
-    for (int j = 0; j < n; j++) { lp.obj[j] = model::q_from_double(s.obj(j)); lp.lo[j] = model::ext_from_double(s.lower(j), inf); lp.up[j] = model::ext_from_double(s.upper(j), inf); }
+    for (int j = 0; j < n; j++) { lp.obj[j] = qd(s.obj(j)); lp.lo[j] = model::ext_from_double(s.lower(j), inf); lp.up[j] = model::ext_from_double(s.upper(j), inf); }
     for (int i = 0; i < m; i++) { lp.lhs[i] = model::ext_from_double(s.lhs(i), inf); lp.rhs[i] = model::ext_from_double(s.rhs(i), inf);
-      sut::SVec v = s.rowVec(i); for (size_t k = 0; k < v.idx.size(); k++) if (v.idx[k] >= 0 && v.idx[k] < n) lp.A[i][v.idx[k]] = model::q_from_double(v.val[k]); }
+      sut::SVec v = s.rowVec(i); for (size_t k = 0; k < v.idx.size(); k++) if (v.idx[k] >= 0 && v.idx[k] < n) lp.A[i][v.idx[k]] = qd(v.val[k]); }
   } else {
     int n = s.numColsRational(), m = s.numRowsRational();
     lp.obj.resize(n); lp.lo.resize(n); lp.up.resize(n); lp.lhs.resize(m); lp.rhs.resize(m); lp.A.assign(m, std::vector<Q>(n, Q(0)));
@@ -101,6 +104,7 @@ void Executor::check_loaded_lp(Obj& o, const std::string& what) {
   int m = s.numRows(), n = s.numCols();
   long cnt = 0, cnt2 = 0;
   for (int i = 0; i < m; i++) { sut::SVec r = s.rowVec(i); cnt += (long)r.idx.size();
+    { std::vector<char> seen(n > 0 ? n : 1, 0); for (int j : r.idx) { if (j >= 0 && j < n) { if (seen[j]) { o.untrusted_model = true; o.inconsistent = true; viol("C13", "duplicate_entry_accepted", what + ": the reader accepted two coefficients for the same row and column"); return; } seen[j] = 1; } } }
     for (size_t k = 0; k < r.idx.size(); k++) { int j = r.idx[k]; if (j < 0 || j >= n) { viol("C13", "inconsistent_lp_after_read", what + ": row entry with column index out of range"); return; }
       if (s.coef(i, j) != r.val[k]) { viol("C13", "inconsistent_lp_after_read", what + ": coefReal differs from row vector"); return; } } }
   for (int j = 0; j < n; j++) { sut::SVec c = s.colVec(j); cnt2 += (long)c.idx.size();
@@ -108,7 +112,7 @@ void Executor::check_loaded_lp(Obj& o, const std::string& what) {
       sut::SVec r = s.rowVec(i); bool f = false; for (size_t q = 0; q < r.idx.size(); q++) if (r.idx[q] == j && r.val[q] == c.val[k]) f = true;
       if (!f) { viol("C13", "inconsistent_lp_after_read", what + ": column entry not mirrored in the row copy"); return; } } }
   if (cnt != cnt2 || cnt != s.numNonzeros()) { viol("C13", "inconsistent_lp_after_read", what + ": nonzero counts of row copy, column copy and numNonzeros() differ"); return; }
-  if (s.numRowNames() >= 0 && (s.numRowNames() != m || s.numColNames() != n)) { viol("C13", "inconsistent_lp_after_read", what + ": name sets do not match the dimensions"); return; }
+  if (s.numRowNames() >= 0 && (s.numRowNames() != m || s.numColNames() != n)) { viol("C13", "names_do_not_match_dimensions", what + ": name sets do not match the dimensions"); return; }
   if (s.getInt(P::i("syncmode")) != 0 && !s.areLPsInSync(true, true)) { viol("C13", "inconsistent_lp_after_read", what + ": areLPsInSync() false after a successful read"); return; }
 }
 
@@ -180,11 +184,13 @@ void Executor::op_file(const Op& op, TaskCtx& t) {
       if (outcome == 1) {
         bool rat = o->s->getInt(P::i("readmode")) == 1 && o->s->getInt(P::i("syncmode")) != 0;
         o->lp = lp_from_sut(*o->s, rat);      // the model follows what the reader accepted; consistency is checked separately
+        o->untrusted_model = g_nonfinite; for (int j = 0; j < o->s->numCols(); j++) if (std::isnan(o->s->lower(j)) || std::isnan(o->s->upper(j))) o->untrusted_model = true; for (int i = 0; i < o->s->numRows(); i++) if (std::isnan(o->s->lhs(i)) || std::isnan(o->s->rhs(i))) o->untrusted_model = true;
+        if (o->untrusted_model) count("read_accepted_nonfinite_numbers");
         o->stopped_since_change = false; o->refReal.valid = o->refRat.valid = false;
         if (opt_.want("C13")) check_loaded_lp(*o, "after readFile(" + op.get("ext", kind) + ")");
       } else {
         // a failed read leaves an LP of unspecified content; the model is re-synchronised from the accessors, the object must stay usable
-        o->lp = lp_from_sut(*o->s, false); o->refReal.valid = o->refRat.valid = false; o->stopped_since_change = false;
+        o->lp = lp_from_sut(*o->s, false); o->refReal.valid = o->refRat.valid = false; o->stopped_since_change = false; o->untrusted_model = true;
       }
       if (outcome != 1 && !faulted) viol("C12", "valid_file_rejected", "readFile failed on a file written by SoPlex itself: " + f + " " + exc);
     } else if (kind == "bas") {
@@ -206,9 +212,11 @@ void Executor::op_file(const Op& op, TaskCtx& t) {
     if (!o) return;
     auto& s = *o->s;
     (void)s.numRows(); (void)s.numCols();
+    if (o->inconsistent) { count("post_skipped_inconsistent_lp"); s.clearLPReal(); o->inconsistent = false; o->lp = lp_from_sut(s, false); return; }
     uint32_t savemask = t.bug_mask; t.bug_mask = 0;
     op_begin(t);
     s.setInt(P::i("iterlimit"), 2000); o->pm.i[P::i("iterlimit")] = 2000;
+    if (s.getInt(P::i("scaler")) == 5 && !opt_.sacrificial) { s.setInt(P::i("scaler"), 2); o->pm.i[P::i("scaler")] = 2; }   // known finding: least-squares scaler on LPs with empty vectors
     int st = s.optimize(nullptr);
     count(std::string("post_status:") + sut::status_name(st));
     s.setInt(P::i("iterlimit"), -1); o->pm.i[P::i("iterlimit")] = -1;
@@ -217,16 +225,20 @@ void Executor::op_file(const Op& op, TaskCtx& t) {
     int gk = (int)op.geti("good", -1);
     if (gk >= 0 && gk < (int)plan_.lps.size()) {
       // load the good LP through a file written by a never-faulted object
-      sut::Sut w; load_model(w, plan_.lps[gk], false, w.getReal(P::r("infty")));
+      sut::Sut w;
+      { auto& pi = sut::param_info(); for (int p = 0; p < pi.nbool; p++) w.setBool(p, s.getBool(p)); for (int p = 0; p < pi.nint; p++) if (pi.iname[p] != "syncmode" && pi.iname[p] != "readmode") w.setInt(p, s.getInt(p)); for (int p = 0; p < pi.nreal; p++) w.setReal(p, s.getReal(p)); w.setSeed(s.seed()); }
+      load_model(w, plan_.lps[gk], false, w.getReal(P::r("infty")));
       std::string gf = dir + "good.lp"; w.writeFile(gf, false, true);
       bool ok = false; try { ok = s.readFile(gf, false); } catch (const sut::Exc&) { ok = false; }
       if (!ok) { viol("C13", "object_unusable_after_read", "readFile of a good file failed after a failed/faulted read"); t.bug_mask = savemask; return; }
       int st1 = s.optimize(nullptr), st2 = w.optimize(nullptr);
-      if (st1 != st2 || (st1 == sut::ST_OPTIMAL && fabs(s.objValue() - w.objValue()) > 1e-6 * (1 + fabs(w.objValue())))) {
+      double ov1 = st1 == sut::ST_OPTIMAL ? s.objValue() - s.getReal(P::r("obj_offset")) : 0, ov2 = st2 == sut::ST_OPTIMAL ? w.objValue() - w.getReal(P::r("obj_offset")) : 0;
+      if (op.geti("strict", 1) == 0) { if (!(st1 == sut::ST_OPTIMAL || st1 == sut::ST_INFEASIBLE || st1 == sut::ST_UNBOUNDED || st1 == sut::ST_INForUNBD || st1 == sut::ST_ABORT_ITER || st1 == sut::ST_ABORT_TIME || st1 == sut::ST_ABORT_VALUE || st1 == sut::ST_ABORT_CYCLING || st1 == sut::ST_SINGULAR)) viol("C13", "object_unusable_after_read", std::string("after loading faulted settings the object cannot solve a good LP: ") + sut::status_name(st1)); }
+      else if (st1 != st2 || (st1 == sut::ST_OPTIMAL && fabs(ov1 - ov2) > 1e-6 * (1 + fabs(ov2)))) {
         std::ostringstream d; d << "after the faulted read the object solves the good LP to " << sut::status_name(st1) << " " << (st1 == sut::ST_OPTIMAL ? dstr(s.objValue()) : "") << ", a fresh object to " << sut::status_name(st2) << " " << (st2 == sut::ST_OPTIMAL ? dstr(w.objValue()) : "");
         viol("C13", "object_unusable_after_read", d.str());
       }
-      o->lp = lp_from_sut(s, false); o->refReal.valid = o->refRat.valid = false; o->stopped_since_change = false;
+      o->lp = lp_from_sut(s, false); o->refReal.valid = o->refRat.valid = false; o->stopped_since_change = false; o->untrusted_model = false;
       o->lp.sense = s.getInt(P::i("objsense"));
     }
     t.bug_mask = savemask;
@@ -272,7 +284,7 @@ void Executor::op_file(const Op& op, TaskCtx& t) {
       if (r1 != r2 || (r1 == 1 && (whole.rows != chunked.rows || whole.cols != chunked.cols || whole.nnz != chunked.nnz)))
         viol("C12", "chunking_changes_result", "reading the same bytes in chunks of " + op.get("chunk", "1") + " gives a different result than reading them at once");
     }
-    if (r2 == 1 && !chunked.consistent) viol("C13", "inconsistent_lp_after_read", "stream read: " + chunked.why);
+    if (r2 == 1 && !chunked.consistent) viol("C13", chunked.why.find("name sets") != std::string::npos ? "names_do_not_match_dimensions" : "inconsistent_lp_after_read", "stream read: " + chunked.why);
     return;
   }
   if (what == "basrt" || what == "statert") {
